@@ -52,7 +52,8 @@ CHECKS = {
     "C02": dict(
         text="Exact rational arithmetic in Piece.tla (round(T*v), either neighbour at an exact half): every chord's strikes at Start(i), releases at Start(i+1), "
              "rests silent, first instance at 0, release-before-strike per track. Bounded-exhaustive sequences over 15 instance kinds (length <= 2 quick, <= 3 "
-             "thorough) + seeded long sequences, each through the real `crd write`.",
+             "thorough) + seeded long sequences, each through the real `crd write`; durations at, above and far above what a delta time holds (2^28-1 "
+             "ticks) are written right or refused (WriterSat.tla: machine arithmetic of the writer, model-checked and trace-validated).",
         note=TB + "; float64 vs rational can only differ within 1e-13 of a half tick, generators stay >= 1/128 tick away except the dedicated exact-half cases",
         technique="TLA+ what-layer (Piece.tla timeline) + how-layer (Writer.tla) + TLC validation of decoded SMF ticks (bounded-exhaustive + seeded) "
                   "and of step-level traces of the real midix writer"),
@@ -62,7 +63,10 @@ CHECKS = {
              "the two named deviations (shared op, dropped trailing rest). Step-level traces of the real midix package (state read through verif hooks after "
              "every call) are validated against the same actions, with a corrupted-trace self-test. "
              "For each generated document the real binary is run with --track N and --track 1; TLC requires equal merged bags of (tick, event) and every "
-             "track's end-of-track at Total(document) (trailing rests included). N in {2,3,4,7} quick, {2,3,4,5,8,16,32} thorough.",
+             "track's end-of-track at Total(document) (trailing rests included). N in {2,3,4,7} quick, {2,3,4,5,8,16,32} thorough, plus 1027 / 2050. "
+             "WriterSat.tla: the same bookkeeping in machine words (saturating sums, refusal of a delta above 2^28-1), model-checked with its deviation "
+             "(wrapping sums) and bound to the real writer by traces in 2^26-tick units; at the CLI: pieces at, above and far above the limit are written "
+             "right or refused.",
         note=TB,
         technique="TLA+ mechanism model (Writer.tla, exhaustive for N=1..5) refined to the timeline + TLC validation of step-level traces of the real "
                   "midix writer (verif hooks) and of N-track vs 1-track CLI observations"),
@@ -70,14 +74,17 @@ CHECKS = {
         text="Demands(document, flags) in Piece.tla lists the control events a document requires (tempo/meter/key at instance 1 always, later only explicit "
              "settings, txt/lic/mrk); TLC requires exactly those, at Start(i), with us/quarter = 60e6/bpm (either neighbour), nn/2^dd, sf/mi by "
              "circle-of-fifths arithmetic, UTF-8 payload bytes, and velocity persistence / strict loudness order. All 28 keys, 6 dynamics, seeded flag subsets.",
-        note=TB + "; bpm drawn from 4..60,000,000 and meter denominators from powers of two <= 128 (outside, SMF cannot carry the written value)",
+        note=TB + "; bpm drawn from 4..60,000,000 and meter denominators from powers of two <= 128 (outside, SMF cannot carry the written value); "
+             "numerators / denominators above 255 must be refused (MeterFits), never wrapped",
         technique="TLA+ what-layer (Piece.tla Demands) + how-layer (Play.tla Opt cells, model-checked) + TLC validation of decoded SMF meta events "
                   "of the real CLI and of call traces of the real play package"),
     "C08": dict(
         text="SMF.tla is a byte-level recogniser written from the SMF 1.0 specification: one TLC state per byte of every file the real `crd write` produced "
              "(seeded documents x track counts x --program x --instrument, stdout and -o), checking header, format/ntrks, chunk lengths, VLQs, running status, "
              "data bytes, meta lengths, exactly one final end-of-track per chunk, note-on/off balance, tempo/time/key signature only in the first chunk; its "
-             "decoded event list must equal the harness reader's. SMFSanity: hand-built files and 33 corruption classes get the labelled verdicts.",
+             "decoded event list must equal the harness reader's. SMFSanity: hand-built files and 33 corruption classes get the labelled verdicts. "
+             "WriterSat.tla (machine arithmetic of the writer: a delta above 2^28-1 ticks is refused, never written as a 5-byte quantity) is model-checked "
+             "and bound to the real writer by in-process traces.",
         note="TLC, SMF.tla; note balance is checked per track (crd keeps a note's on and off on one track)",
         technique="TLA+ byte-level recogniser as trace specification; TLC validates the raw bytes written by the real CLI"),
     "C16": dict(
@@ -95,7 +102,8 @@ CHECKS = {
              "go through the real `crd text parse` under a watchdog; TLC requires accepted iff Lexer o ChordLang accept, tree equal, refusal = error. "
              "In-process: ALL token strings <= 4/5 and every single-token mutation of every sentence injected into the shipped LALR tables (TokenTrace); "
              "the real lexer validated token by token incl. source spans and mode flags (LexerTrace, verif hooks; mechanism drift, not a verdict).",
-        note=TB + "; 'the parser shipped is the one goyacc generates' is decided behaviourally up to the bound",
+        note=TB + "; 'the parser shipped is the one goyacc generates' is decided behaviourally up to the bound (TokenTrace) and literally: the pinned "
+             "goyacc is re-run on the working tree's chords.y and the Go token sequences of shipped and regenerated parser are compared (plain equality)",
         technique="TLA+ grammar/lexer specification, TLC-generated sentences replayed into the real CLI, TLC validation of every outcome"),
     "C05": dict(
         text="Conv.tla models the converter as a fold carrying the current key (change applied before the carrying chord). Each seeded progression is "
